@@ -6,12 +6,18 @@
    [bitm mm p] = bit p mod 64 of word p / 64; [sets pr p] / [keeps pr p]: primitive pr sets /
    preserves that bit.
 
-   NOT proved here (partial): the boolean checker theorem `forall c, ok_C08 c (run_C08 c) = true`
-   for scheduled cases (it needs the bookkeeping that maps the positions of a merged schedule back
-   to operations of threads); the Prop-level theorems below are the property itself on arbitrary
-   executions, and ok_C08 is evaluated on every real run by the check. *)
+   C08_model_ok ties the executable checker ok_C08 (which judges the REAL observations on every
+   run) to the model: for every well-formed scheduled case - any number of threads, any programs,
+   any schedule - the model's run satisfies the checker.  The Prop-level theorems are the property
+   itself on arbitrary executions. *)
 From VM Require Import Prelude.MachInt Prelude.Outcome Impl.Bitmap Impl.BitmapConc Spec.C09 Spec.C08 Suite.C08
   Proofs.C09 Proofs.C08.
+
+(* the model satisfies the executable checker on ALL well-formed cases (wf_case08: non-zero page
+   size, usize arguments; enforced by the suite decoder): conservation, no invention and the
+   result shapes hold for the results the scheduled model run returns *)
+Theorem C08_model_ok : forall c, wf_case08 c = true -> ok_C08 c (run_C08 c) = true.
+Proof. exact C08_model_ok_lemma. Qed.
 
 (* one primitive acts on each bit independently of all other bits: only the named word changes,
    and in it bit p becomes (old && keeps) || sets *)
@@ -87,6 +93,7 @@ Example C08_nonvacuous :
   b_final (run_C08 c) = [64] /\ b_results (run_C08 c) = [[[]]; [[9223372036854775810; 1]]].
 Proof. vm_compute. repeat split. Qed.
 
+Print Assumptions C08_model_ok.
 Print Assumptions C08_bits_independent.
 Print Assumptions C08_marks_never_erase.
 Print Assumptions C08_mark_conserved.
